@@ -1,15 +1,18 @@
 #!/usr/bin/env python3
 """Builds seeded/<id>/meta.json from the seeder's meta, the integrator's verify.sh re-run log and the
-muttest logs, and regenerates DESIGN.md section 10.6. Inputs (development artefacts): /tmp/verify-all*.log,
-/tmp/muttest-batch*.log, seeded/notes.json (manual notes: strengthening done, official-path confirmation)."""
+muttest logs, and regenerates DESIGN.md section 10.6. Inputs (development artefacts, copied from /tmp): seeded/logs/verify-all*.log,
+seeded/logs/muttest-batch*.log, seeded/notes.json (manual notes: strengthening done, official-path confirmation)."""
 import json, os, re, glob
 ROOT = os.path.dirname(os.path.dirname(os.path.abspath(__file__)))
 notes_p = os.path.join(ROOT, "seeded", "notes.json")
 notes = json.load(open(notes_p)) if os.path.exists(notes_p) else {}
 verify = {}
-for f in sorted(glob.glob("/tmp/verify-all*.log") + glob.glob("/tmp/muttest-batch0.log")):
+for f in sorted(glob.glob(os.path.join(ROOT, "seeded", "logs", "verify-all*.log")) + []):
     cur = None
     for line in open(f, errors="replace"):
+        m = re.match(r"=== (\S+) verify result: (.*)", line)
+        if m:
+            verify.setdefault(m.group(1), []).append(m.group(2).strip()[-200:]); cur = None; continue
         m = re.match(r"=== (\S+) verify", line)
         if m:
             cur = m.group(1); verify.setdefault(cur, []); continue
@@ -23,7 +26,7 @@ for l in open(os.path.join(ROOT, "known_findings.jsonl")):
         if k.get("status") == "known":
             known.setdefault(k["property"], set()).add(k["signature"])
 checks = {}
-for f in sorted(glob.glob("/tmp/muttest-batch*.log"), key=lambda x: int(re.findall(r"\d+", x)[-1])):
+for f in sorted(glob.glob(os.path.join(ROOT, "seeded", "logs", "muttest-batch*.log")), key=lambda x: int(re.findall(r"\d+", x)[-1])):
     cur = None
     for line in open(f, errors="replace"):
         m = re.match(r"=== (\S+) check", line)
@@ -53,7 +56,7 @@ for d in sorted(os.listdir(os.path.join(ROOT, "seeded"))):
     prop = s.get("property", d)[:3] if isinstance(s.get("property"), str) else d
     prop = d[:3]
     v = verify.get(d, [])
-    vpass = bool(v) and any("PASS" in x for x in v[-2:]) and not any(x.startswith("FAIL") for x in v)
+    vpass = bool(v) and ("PASS" in v[-1] or "succeeded" in v[-1] or "verified" in v[-1]) or bool(v) and any(("PASS" in x or "succeeded" in x or "verified" in x or "pass with the patch" in x) for x in v[-2:]) and not any(x.startswith("FAIL:") for x in v)
     c = checks.get(d, {})
     n = notes.get(d, {})
     caught = bool(c.get("violations")) if (c and c.get("summary")) else None
